@@ -84,7 +84,8 @@ FEAT = {'nj': (2, 8), 'tanks': (0, 2), 'extra_res': (0, 1), 'pumps': True, 'valv
         'booster': True, 'wild': 0.06,
         'durations': [3600, 7200, 4 * 3600, 4 * 3600, 8 * 3600, 12 * 3600, 0]}
 
-TEMPLATES = ['single', 'remove_reset_readd', 'remove_before_run', 'pause_remove_continue', 'pause_continue', 'reset_rerun']
+TEMPLATES = ['single', 'remove_reset_readd', 'remove_before_run', 'pause_remove_continue', 'pause_continue', 'reset_rerun',
+             'pause_remove_readd_continue']
 
 
 # ------------------------------------------------------------------------------------------------ generator
@@ -189,7 +190,8 @@ def strategy(draw, tier='quick'):
         elif draw(st.integers(0, 4)) == 0:
             nd['elev'] = round(top + draw(st.floats(-6.0, 15.0)), 2)
     tmpl = draw(st.sampled_from(['single'] * 14 + ['remove_reset_readd'] * 3 + ['remove_before_run'] +
-                                ['pause_remove_continue'] * 2 + ['pause_continue'] + ['reset_rerun'] * 2))
+                                ['pause_remove_continue'] * 2 + ['pause_continue'] + ['reset_rerun'] * 2 +
+                                ['pause_remove_readd_continue'] * 2))
     n = len(nodes)
     leak_idx = [i for i, nd in enumerate(nodes) if 'leak' in nd]
     ops = [['run']]
@@ -212,6 +214,16 @@ def strategy(draw, tier='quick'):
             ops = [['remove', i] for i in chosen] + [['run']]
         elif tmpl == 'pause_remove_continue':
             ops = [['run']] + [['remove', i] for i in chosen] + [['extend', mult * draw(st.integers(1, 3))], ['run']]
+        elif tmpl == 'pause_remove_readd_continue':
+            # the leak is repaired during the pause and a new leak is scheduled at the same node for later: it must
+            # start at its own start_time, not at the restart
+            ext = mult * draw(st.integers(2, 4))
+            ops = [['run']] + [['remove', i] for i in chosen]
+            for i in chosen[:k]:
+                lk = draw(_leak(o))
+                start = o['duration'] + o['hyd'] * draw(st.integers(1, max(1, ext - 1))) + draw(st.sampled_from([0, 0, 7, 600]))
+                ops.append(['add', i, lk['area'], lk['cd'], start, None])
+            ops += [['extend', ext], ['run']]
         else:
             ops = [['run'], ['extend', mult * draw(st.integers(1, 3))], ['run']]
     spec['c08'] = {'template': tmpl, 'ops': ops}
@@ -517,9 +529,12 @@ def check(case):
                             'remaining leak definitions %r' % (phase, n, wn.control_name_list, ref), tags)
         elif kind == 'add':
             n = names[op[1] % len(names)]
-            if n in ref or clock is not None:
+            if n in ref or (clock is not None and not (op[4] is not None and op[4] > clock)):
+                # (during a pause only a leak whose start time lies in the future is specified)
                 tags.append('add:skipped')
                 continue
+            if clock is not None:
+                tags.append('add:while_paused')
             lk = {'area': op[2], 'cd': op[3], 'start': op[4], 'end': op[5]}
             try:
                 wn.get_node(n).add_leak(wn, area=lk['area'], discharge_coeff=lk['cd'], start_time=lk['start'],
